@@ -1,25 +1,25 @@
 SPECIFICATION Spec
 CONSTANTS
   Bug = ""
-  Fix = TRUE
-  Sigma = {97, 98}
-  PatLens = {1, 2}
-  Dg = {1, 7, 8}
-  MaxDigits = 1
+  Fix = FALSE
+  Sigma = {97}
+  PatLens = {17, 18, 34}
+  Dg = {9}
+  MaxDigits = 3
   WordAlphabet = {97, 98, 65}
-  MaxWordLen = 4
+  MaxWordLen = 3
   MaxMixedLen = 2
   MaxExcLen = 2
-  CodecWordLens = {3}
+  CodecWordLens = {18, 35}
   NSlices = 1
   Slice = 0
   MaxP = 1
-  MaxE = 1
-  Deviations = {}
+  MaxE = 0
+  Deviations = {"ExceptionAsScore67", "LaterPatternReplacesException", "ExceptionsSplitOnLinesOnly"}
   PatTexts <- MCPatTexts
   ExcTexts <- MCExcTextsA
   ExcListTexts <- MCExcListsSmall
-  Words <- MCWordsMixed
+  Words <- MCWordsCodec
   Lc <- MCLc
 INVARIANTS StateIsBuild Refines CodecRoundTrip
 CHECK_DEADLOCK FALSE
